@@ -83,7 +83,14 @@ TEXT = {
           "real journal files (live ones and ones written by goleveldb's journal.Writer at the corners of the format) "
           "against goleveldb's own journal.Reader - non-strict and strict - and against the harness parser, for whole files, "
           "cuts and cuts with zero / arbitrary tails, with the real CRC-32C computed in Lean; re-encoding the recovered records "
-          "must give the file byte for byte.",
+          "must give the file byte for byte. Continuation (C08Redeliver): commit, roll back, deliver the very same momentum "
+          "again - the second delivery is not ignored and restores exactly the state after the first one, raw keys, redo and "
+          "undo records (pop_then_readd), also when the rollback was interrupted at any write (redeliver_popped_after_crash); "
+          "the stream drives this on every crash image and compares with a node that never rolled back and with a fresh node "
+          "given only the final chain. One write per operation is checked at every depth threshold of the store (histories of "
+          "700+ commits, one journal record per operation) and pinned in the source: the regenerated table of every access to "
+          "the leveldb handle (C08Gen: Add and Pop contain exactly one mutating call, the Write of one batch; no other writer; "
+          "no raw read on the handle).",
   "design_ref": "§3 C08",
   "note": "Trusted: goleveldb writes one journal record per write call and replays a delivered record as one batch; its "
           "journal.go implements the format as modelled (checked on real files, not proved about the Go source); the OS keeps "
